@@ -24,12 +24,15 @@ pub enum Corruption {
     SectorZero { at: usize },
     /// file ends at `at`
     Truncate { at: usize },
+    /// file ends at `at`, a boundary between two units (after a complete assignment, after the
+    /// line break or the comment that follows it): the error is expected AT the end of input
+    TruncateAtBoundary { at: usize },
 }
 
 impl Corruption {
     fn at(&self) -> usize {
         match self {
-            Corruption::Replace { at, .. } | Corruption::SectorZero { at } | Corruption::Truncate { at } => *at,
+            Corruption::Replace { at, .. } | Corruption::SectorZero { at } | Corruption::Truncate { at } | Corruption::TruncateAtBoundary { at } => *at,
         }
     }
 }
@@ -97,7 +100,7 @@ fn apply(c: &Corruption, text: &str) -> Vec<u8> {
                 *x = 0;
             }
         }
-        Corruption::Truncate { at } => b.truncate(*at),
+        Corruption::Truncate { at } | Corruption::TruncateAtBoundary { at } => b.truncate(*at),
     }
     b
 }
@@ -106,11 +109,11 @@ fn seam_faults(c: &Corruption) -> Vec<Fault> {
     match c {
         Corruption::Replace { at, byte } => vec![Fault { cls: shim::C_READ, ord: 0, kind: shim::F_GARBLE, a: *at as u64, b: *byte as u64 }],
         Corruption::SectorZero { at } => vec![Fault { cls: shim::C_READ, ord: 0, kind: shim::F_ZERO, a: *at as u64, b: 512 }],
-        Corruption::Truncate { at } if *at >= 1 => vec![
+        Corruption::Truncate { at } | Corruption::TruncateAtBoundary { at } if *at >= 1 => vec![
             Fault { cls: shim::C_READ, ord: 0, kind: shim::F_SHORT, a: *at as u64, b: 0 },
             Fault { cls: shim::C_READ, ord: 1, kind: shim::F_EOF, a: 0, b: 0 },
         ],
-        Corruption::Truncate { .. } => vec![Fault { cls: shim::C_READ, ord: 0, kind: shim::F_EOF, a: 0, b: 0 }],
+        Corruption::Truncate { .. } | Corruption::TruncateAtBoundary { .. } => vec![Fault { cls: shim::C_READ, ord: 0, kind: shim::F_EOF, a: 0, b: 0 }],
     }
 }
 
@@ -227,6 +230,24 @@ impl Scenario for C17Corrupt {
                 cases.push(Case { c: Corruption::Truncate { at }, file: f.chance(1, 2), ts: false });
             }
         }
+        // truncation exactly at unit boundaries: after a complete assignment, after its line break,
+        // in front of the next assignment's first token
+        for _ in 0..6 {
+            let asg: Vec<&Unit> = units.iter().filter(|u| u.kind == "assignment").collect();
+            if asg.is_empty() {
+                break;
+            }
+            let u = f.pick(&asg);
+            let nl = if text[u.end..].starts_with("\r\n") { 2 } else { 1 };
+            let at = match f.below(3) {
+                0 => u.end,
+                1 => (u.end + nl).min(text.len()),
+                _ => u.start,
+            };
+            if text.is_char_boundary(at) {
+                cases.push(Case { c: Corruption::TruncateAtBoundary { at }, file: f.chance(1, 2), ts: false });
+            }
+        }
         serde_json::to_value(&Plan { seed, set, cases, entropy: root.fork("hashkeys").next_u64() }).unwrap()
     }
 
@@ -239,7 +260,7 @@ impl Scenario for C17Corrupt {
         let mut digest = String::new();
         for (ci, case) in p.cases.iter().enumerate() {
             let pos = case.c.at();
-            if pos > text.len() || (pos == text.len() && !matches!(case.c, Corruption::Truncate { .. })) {
+            if pos > text.len() || (pos == text.len() && !matches!(case.c, Corruption::Truncate { .. } | Corruption::TruncateAtBoundary { .. })) {
                 continue;
             }
             let corrupted = apply(&case.c, &text);
@@ -279,13 +300,13 @@ impl Scenario for C17Corrupt {
                 continue;
             };
             out.count("corruptions", 1);
-            out.count(&format!("corruption.{}", match case.c { Corruption::Replace { .. } => "replace", Corruption::SectorZero { .. } => "sector_zero", Corruption::Truncate { .. } => "truncate" }), 1);
+            out.count(&format!("corruption.{}", match case.c { Corruption::Replace { .. } => "replace", Corruption::SectorZero { .. } => "sector_zero", Corruption::Truncate { .. } => "truncate", Corruption::TruncateAtBoundary { .. } => "truncate_at_boundary" }), 1);
             out.count(if case.file { "delivery.file_corrupted_by_seam" } else { "delivery.literal" }, 1);
             if case.file {
                 // the seam must have delivered what `ctext` models: one read of the whole (or truncated) file
                 let reads: Vec<i64> = rep.events.iter().filter(|e| e.call == "read").map(|e| e.res).collect();
                 let expect = match case.c {
-                    Corruption::Truncate { at } => at as i64,
+                    Corruption::Truncate { at } | Corruption::TruncateAtBoundary { at } => at as i64,
                     _ => text.len() as i64,
                 };
                 if reads.first() != Some(&expect) {
@@ -334,7 +355,7 @@ impl Scenario for C17Corrupt {
             //    before it records a position).
             if r.offset > pos {
                 out.violate("not-after-first-bad-byte", format!("reported offset {} lies after the first corrupted byte {pos}; {ctx}", r.offset));
-            } else if r.offset < unit.start {
+            } else if r.offset < unit.start && !matches!(case.c, Corruption::TruncateAtBoundary { .. }) {
                 out.violate("not-before-malformed-unit", format!("reported offset {} lies before the first token ({}) of the malformed {}; {ctx}", r.offset, unit.start, unit.kind));
             }
             // 4. the three renderings agree on the line
